@@ -54,7 +54,7 @@ META = {
             "autodetection claimed for the UTF-8 BOM only; CR line ends for files only"),
     "C11": ("fixed-point oracle over repeated read->write cycles, corpus enumeration + Hypothesis",
             "for corpus files, generated LASFiles and generated texts: cycles 2..4 of write/read must reproduce the canonical content of the first re-read exactly",
-            "inputs that cannot be read or written the first time are rejected; open findings D41 (text samples holding both quote characters) and D44 (text samples with digit-hyphen/comma-digit) excluded by construction"),
+            "inputs that cannot be read or written the first time are rejected; open findings D41 (text samples holding both quote characters) and D44 (text samples with digit-hyphen/comma-digit), D49 (WRAP stated twice + wrapped output) excluded by construction"),
     "C12": ("metamorphic testing (pairs of writer configurations), corpus enumeration + Hypothesis",
             "two writer configurations with the same numeric format applied to fresh copies of the same input must re-read to equal content apart from VERS and WRAP, including 1.2 <-> 2.0 conversion",
             "items whose value/description contains ':' are not compared across versions (ambiguous in the 1.2 format); D41/D44 sources excluded"),
